@@ -6,10 +6,10 @@ SPEC = {
         # Rand32::_state / Rand48::_state are private: the mantissa enumeration writes the state directly
         "flags": ["-fno-access-control"],
         "technique": "explicit-state search over call histories of the rand48 family in lock-step with glibc and the POSIX recurrence; exhaustive enumeration of the Rand32 mantissa space",
-        "level_text": "From every initial state of the alphabet (caller-owned 48-bit state with exactly one non-zero 16-bit word - 3 x 65535, exhaustive - plus 2^k, 2^k-1, the multiplier's carry boundaries, each paired with srand48 seeds from B(long)) every call sequence of length 1..4 over {erand48, nrand48, drand48, lrand48, srand48} is executed on the real code in lock-step with glibc's functions of the same names and with the POSIX recurrence; values, successor states and the independence of the two states are compared at every step and both hidden states are read back completely at the end of every sequence. All 2^23 mantissa patterns of Rand32::nextf are enumerated by writing the private state; Rand32/Rand48 purity, reference sequences and ranges are checked on 4111 seeds x 64 draws; the samplers on the same seeds.",
+        "level_text": "From every initial state of the alphabet (caller-owned 48-bit state with exactly one non-zero 16-bit word - 3 x 65535, exhaustive - plus 2^k, 2^k-1, the multiplier's carry boundaries, each paired with srand48 seeds from B(long)) every call sequence of length 1..4 over {erand48, nrand48, drand48, lrand48, srand48} is executed on the real code in lock-step with glibc's functions of the same names and with the POSIX recurrence; values, successor states and the independence of the two states are compared at every step and both hidden states are read back completely at the end of every sequence. All 2^23 mantissa patterns of Rand32::nextf are enumerated by writing the private state; Rand32/Rand48 purity, reference sequences and ranges are checked on 4111 seeds x 64 draws; the samplers (V2, V3, V4 x float, double) on the same seeds, and driven by a scripted generator that replays every tuple over a boundary alphabet (zero length, squares that underflow, components exactly +-1 and +-(1-ulp)); nextf(a,b) on all 2^23 values of f x 16 ranges (Rand32) and on the all-zeros / all-ones / single-word successor states (Rand48); thorough: ALL 2^32 states of Rand32 x {nextb, nexti, nextf(a,b)} and 2^30 states spread over the whole state space x one draw of each V3f sampler.",
         "level_note": "Bounded: the 2^48 state space is covered by the stated alphabet and by one orbit (2^22 states quick, 2^28 thorough), not completely. Trusts glibc's rand48 family (cross-checked against the written-out recurrence at every step).",
         "deadline": {"quick": 240, "thorough": 900},
-        "rule": "states = initial (U, seed) pairs + packing states + orbit states + Rand32 low-state patterns + seeds; transitions = generator calls compared with the reference models; non-trivial = initial states with a single non-zero word, boundary states x every seed, negative / wider-than-32-bit seeds, top-nibble-nonzero packing states, extreme mantissas, a>b and a==b ranges (classes counted by predicates on the input)",
+        "rule": "states = initial (U, seed) pairs + packing states + orbit states + Rand32 low-state patterns + seeds; transitions = generator calls compared with the reference models; non-trivial = initial states with a single non-zero word, boundary states x every seed, negative / wider-than-32-bit seeds, top-nibble-nonzero packing states, extreme mantissas, a>b and a==b ranges, f = 0 and f = max, scripted tuples of length zero / with underflowing squares / with unit components, Rand32 states with the unused upper bits set (classes counted by predicates on the input)",
         "assumptions": ["LP64 (long is 64-bit); glibc rand48 family as reference, cross-checked against the POSIX recurrence",
                         "Rand32::init / Rand48::init are pinned to the formulas in ImathRandom.h (reproducibility of seeded sequences)"],
     }
